@@ -34,6 +34,10 @@ CLAIMED = {
           "1-3 independent time/async sources run under generated clock scripts (single firings, jumps over many periods) and three executor models; interval/timer histories are checked for consecutive values, never-early and exact-period timing with a prompt executor; scripted futures/streams must be relayed exactly, never early, never polled after their end, and not stall while values are ready. Exploration within the stated bounds.",
           "Trusts the virtual clock and the scripted Future/Stream implementations in build_body.rs.",
           "DESIGN.md §3 C08"),
+  "C06": ("engine-S", "model-based stateful PBT over API histories (vec of ops + interpreter, proptest tapes + shrinking) and bounded-exhaustive enumeration of short histories, for all five subject types",
+          "Histories of subscribe / in-callback subscribe / unsubscribe-one / next / error / complete / retain / unsubscribe-subject through cloned handles are applied to the real subject and to a list model; after every step each subscriber's trace, is_finished() and is_empty() are compared. Every history of length <= 5 over a compact alphabet is enumerated for every subject type (thorough). Exploration within those bounds; lock-level interleavings on SubjectThreads belong to the engine-T part.",
+          "Trusts the list model in props/c06.rs and the uniform wrapper over the five subject types (subj.rs).",
+          "DESIGN.md §3 C06"),
   "C09": ("engine-P", "model-based PBT on a virtual clock: generated timed scripts (incl. source events at the instant a timer expires, before its task runs) against model-free invariants over uniquely numbered items and a discrete-event reference model",
           "debounce / throttle (all edges, fixed and item-dependent windows) / sample(interval) / buffer_with_time / buffer_with_count_and_time run generated timed scripts; outputs must be source items, at most once, in order, buffers non-empty and bounded and complete on completion, and the (time, notification) list must equal a discrete-event reference model of the documented window semantics. Exploration within the stated bounds (single thread; concurrent producers are covered by the engine-T part when present).",
           "Trusts the discrete-event model in props/c09.rs (documented window semantics + FIFO executor semantics) and the virtual clock.",
@@ -91,7 +95,9 @@ m = {
     "add_only": True,
   },
   "engines": [
-    {"name": "engine-P", "path": "/verif/harness/src (local.rs, threads.rs, build_body.rs, model.rs, vtime.rs)", "serves_properties": [c["property_id"] for c in checks if c["engine"] == "engine-P"],
+    {"name": "engine-S", "path": "/verif/harness/src (subj.rs, props/c06.rs, props/c17.rs ...)", "serves_properties": [c["property_id"] for c in checks if "engine-S" in c["engine"]],
+     "kind_free_text": "stateful model-based testing of API histories: generated operation sequences applied to the real object and to an in-memory model, invariants after every step; random (proptest, shrinking) and bounded-exhaustive (odometer) drivers"},
+    {"name": "engine-P", "path": "/verif/harness/src (local.rs, threads.rs, build_body.rs, model.rs, vtime.rs)", "serves_properties": [c["property_id"] for c in checks if "engine-P" in c["engine"]],
      "kind_free_text": "operator-AST interpreter building real rxRust pipelines (BoxOp / BoxOpThreads) driven by generated scripts on a virtual clock; proptest choice tapes, bounded-exhaustive odometer"},
   ],
   "checks": checks,
